@@ -4,6 +4,7 @@ vsim_core::interpose!();
 
 mod c12;
 mod c15;
+mod c19;
 mod c24;
 pub mod eng;
 mod probe;
@@ -65,10 +66,25 @@ impl World for W1 {
                 stub: vec!["event sources and their delivery order (simulated)"],
                 assumptions: vec!["tracker state is observed through its checkpoint (millisecond precision; timestamps are on a 500 ms grid)", "every stream has an allowed_lateness, so 'consuming stream without a lateness setting' does not arise; the late side output cannot be configured from VPL, so 'diverted' is judged as 'not processed'"],
             },
+            Prop {
+                id: "C19",
+                batches: vec![
+                    Batch { name: "windows", quick: 5_000, thorough: 300_000, faulty: true },
+                    Batch { name: "sequences", quick: 5_000, thorough: 300_000, faulty: true },
+                    Batch { name: "joins-distinct-limit", quick: 3_000, thorough: 150_000, faulty: true },
+                    Batch { name: "watermarks", quick: 3_000, thorough: 150_000, faulty: true },
+                    Batch { name: "sweep-all-cuts", quick: 300, thorough: 30_000, faulty: true },
+                ],
+                rule: "one run = one generated program with a single stateful feature (window of every kind plain/partitioned with aggregate or direct emit; sequence with 2-3 steps, optional all/not/within/key predicate; 2-way join; distinct; limit; watermark+lateness with optional window), 4-30 events (ms-aligned or sub-millisecond timestamps; event-time disorder and watermark advances for watermark programs) and 1-3 tape-chosen crash points (sweep batch: every cut point of the history, one at a time). Crash = force_checkpoint through the real CheckpointManager/codec into a MemoryStore or FileStore, drop the engine, fresh engine + load + enable_checkpointing (auto-restore). Oracle: the uninterrupted run of the same engine on the same events, compared output by output (type, timestamp, fields) as the run proceeds. Non-trivial = >= 4 events processed and >= 1 step with output; distinct = distinct decoded-trace hash.",
+                real: vec!["Engine::{load, process, create_checkpoint/force_checkpoint, enable_checkpointing/restore_checkpoint, advance_external_watermark}", "CheckpointManager, codec, MemoryStore/FileStore", "window/sase/join/watermark checkpoint+restore code"],
+                stub: vec!["event source", "the process (crash = engine dropped after a completed checkpoint)"],
+                assumptions: vec!["steps whose outputs are equal as multisets but differently ordered (hash-map order after restore) are not judged", "finite values only (NaN/inf belong to C20, not claimed)"],
+            },
         ]
     }
     fn run(&self, prop: &str, batch: &str, tape: &mut Tape, rep: &mut Report) {
         match prop {
+            "C19" => c19::run(batch, tape, rep),
             "C24" => c24::run(batch, tape, rep),
             "C15" => c15::run(batch, tape, rep),
             "C12" => c12::run_c12(batch, tape, rep),
